@@ -22,7 +22,7 @@ TOKENS = [
     "hold", "message_SwitchTalk", "message_SwitchMonologue", "menu", "menu2", "scn", "value", "random", "sector", "dungeon_mode",
     "debug", "edit", "variation", "clear", "init", "reset", "dungeon_result", "adventure_log", "TRUE", "FALSE", "Position",
     "{", "}", "(", ")", "[", "]", "<", ">", ";", ":", ",", "=", "==", "!=", "<=", ">=", "+=", "-=", "*=", "/=", "&", "^", "&<<", "||",
-    "@", "§", "~", "$A", "$B", "$SCENARIO_MAIN", "$PERFORMANCE_PROGRESS_LIST", "x", "y", "lbl", "m", "n", "CONST", "0", "1", "2", "3", "-1", "0x10",
+    "@", "§", "~", "$A", "$B", "$SCENARIO_MAIN", "$PERF_PROGRESS_VF", "$PERFORMANCE_PROGRESS_LIST", "x", "y", "lbl", "m", "n", "CONST", "0", "1", "2", "3", "-1", "0x10",
     "1.5", ".5", "-0.5", "'s'", '"t"', "'''\n a\n'''", "english", "{english='a'}", "BranchSum", "BranchExecuteSub", "ProcessSpecial",
     "message_SwitchMenu", "Destroy", "\n", " ", "//c\n", "/*c*/", "//?: is-ssb-script: true\n", "\"./lib.exps\"",
 ]
